@@ -441,15 +441,27 @@ def parse_mir(text, crate):
                         params.append((pm.group(1), pm.group(2)))
                 f = Fn(crate, m.group(1), params, m.group(3))
             else:
-                pm = re.match(r'^(promoted\[\d+\] in (.+?)|const (.+?)|static (?:mut )?(.+?)): (.*) = \{\s*(//.*)?$', line)
-                if not pm:
+                # item name ends at the first ": " outside brackets (impl locations contain ": " themselves)
+                head = re.sub(r'\s*=\s*\{\s*(//.*)?$', '', line)
+                depth, cut = 0, None
+                for k_, ch in enumerate(head):
+                    if ch in '<([{':
+                        depth += 1
+                    elif ch in '>)]}' and not (ch == '>' and k_ > 0 and head[k_ - 1] in '-='):
+                        depth -= 1
+                    elif ch == ':' and depth == 0 and head[k_:k_ + 2] == ': ' and (k_ == 0 or head[k_ - 1] != ':') and head[k_ + 1:k_ + 2] != ':':
+                        cut = k_
+                        break
+                if cut is None:
                     i = j + 1
                     continue
-                if pm.group(2):
-                    nm = pm.group(2) + '::' + re.match(r'promoted\[\d+\]', line).group(0)
+                item, ty = head[:cut], head[cut + 2:]
+                pm2 = re.match(r'^promoted\[(\d+)\] in (.+)$', item)
+                if pm2:
+                    nm = pm2.group(2) + '::promoted[%s]' % pm2.group(1)
                 else:
-                    nm = 'const ' + (pm.group(3) or pm.group(4))
-                f = Fn(crate, nm, [], pm.group(5))
+                    nm = 'const ' + re.sub(r'^(const|static(?: mut)?) ', '', item)
+                f = Fn(crate, nm, [], ty)
                 f.promoted = True
             parse_body(f, lines[i + 1:j])
             fns.append(f)
